@@ -217,6 +217,8 @@ def run_job(cfg, job, tier, want_trace=False, only_property=None):
     timeout = int(job.get("timeout", JOB_TIMEOUT[tier]))
     if mode == "native":
         return run_job_native(cfg, job, r, tier)
+    if mode == "inventory":
+        return run_job_inventory(cfg, job, r)
     if mode == "direct" and job.get("loops"):
         # direct harness + loop contracts: needs the entry point at compile time, then goto-instrument --apply-loop-contracts
         tag = hashlib.md5((job["id"] + " ".join(defs)).encode()).hexdigest()[:8]
@@ -343,6 +345,51 @@ def run_job_native(cfg, job, r, tier):
                                      "loc": src, "native_fail": fails, "evaluations": int(m.group(2))})
     if not found:
         r["note"] = "native program produced no RESULT line (rc=%d): %s" % (rc, (out + err)[-500:]); return r
+    r["status"] = "done"
+    return r
+
+def run_job_inventory(cfg, job, r):
+    """C19 frame facts from the AST of /repo's current tree (cxx2c --inventory): every variable with static storage duration declared in
+    repository files and every access to a mutable one, classified read / write / escape.  One obligation per mutable static object
+    (all non-read accesses come from its allow-listed initialisation functions) and one per function-local static (immutable)."""
+    r["backend"] = "cxx2c --inventory (clang-14 AST of the current tree): static-storage inventory + access classification"
+    bdir = os.path.join(BUILD, cfg["name"]); os.makedirs(bdir, exist_ok=True)
+    allow = json.load(open(os.path.join(cfg["dir"], "allow.json")))
+    statics = {}; accesses = []; t0 = time.time()
+    for tu in cfg["inventory_tus"]:
+        pre = os.path.join(bdir, "inv_" + os.path.splitext(tu)[0])
+        cmd = [os.path.join(BUILD, "cxx2c"), os.path.join(cfg["dir"], tu), "--inventory", "-o", pre, "--", "-std=c++17", "-I" + REPO + "/include", "-I" + REPO + "/src", "-I" + CLANG_RES, "-w"]
+        rc, out, err, dt = run(cmd, timeout=600)
+        if rc != 0:
+            r["note"] = "inventory of %s failed: %s" % (tu, (out + err)[-800:]); return r
+        d = json.load(open(pre + ".json"))
+        for sv in d["statics"]: statics[(sv["file"], sv["line"], sv["name"])] = sv
+        accesses += d["accesses"]
+    r["solver_s"] = round(time.time() - t0, 2); r["cmd"] = "build/cxx2c <targets/statics/tu_*.cpp> --inventory"
+    props = job["props"]; seen_names = set(sv["name"] for sv in statics.values())
+    missing = [n for n in allow["must_see"] if n not in seen_names]
+    r["obligations"].append({"name": "statics.canary", "desc": "CANARY: the inventory sees the statics known to exist (%s)" % ", ".join(allow["must_see"]), "status": "SUCCESS" if missing else "FAILURE", "class": "canary", "props": [], "loc": cfg["dir"]})
+    amap = {(a["var"], a["file"]): a for a in allow["mutable_statics"]}
+    for (f, line, name), sv in sorted(statics.items()):
+        rel = os.path.relpath(os.path.realpath(f), REPO); oname = "statics.%s:%d.%s" % (rel, line, name)
+        if sv["thread_local"] or sv.get("sync_type"):
+            continue
+        if sv["const"]:
+            if sv["kind"] == "static-local":
+                r["obligations"].append({"name": oname, "desc": "%s: function-local static '%s' (%s:%d) is const: initialised once under the thread-safe static-initialisation guard ([stmt.dcl]/4), then read-only" % (",".join(props), name, rel, line),
+                                         "status": "SUCCESS", "class": "contract", "props": props, "loc": "%s:%d" % (rel, line)})
+            continue
+        acc = [a for a in accesses if a["var"] == name and a["var_file"] == f and a["var_line"] == line and a["kind"] != "read"]
+        ent = amap.get((name, rel)); bad = [a for a in acc if not ent or a["function"] not in ent["writers"]]
+        writes = [a for a in bad if a["kind"] == "write"]
+        if not bad:
+            st = "SUCCESS"; extra = "writers: %s - %s" % (", ".join(ent["writers"]) or "none", ent["why"]) if ent else "never written, never escapes"
+        elif writes or not ent:
+            st = "FAILURE"; a = (writes or bad)[0]; extra = "mutable static-storage object shared by all threads is %s in %s (%s:%d) without synchronisation" % ({"write": "written", "escape": "handed out by non-const reference/pointer", "other": "used in an unclassified way"}[a["kind"]], a["function"], os.path.relpath(os.path.realpath(a["file"]), REPO), a["line"])
+        else:
+            st = "UNKNOWN"; a = bad[0]; extra = "access in %s (%s:%d) is '%s': cannot be classified as read-only" % (a["function"], a["file"], a["line"], a["kind"])
+        r["obligations"].append({"name": oname, "desc": "%s: no serialization code writes the mutable static '%s' (%s:%d) after static initialisation [%s]" % (",".join(props), name, rel, line, extra),
+                                 "status": st, "class": "contract", "props": props, "loc": "%s:%d" % (rel, line), "native_fail": [extra] if st == "FAILURE" else []})
     r["status"] = "done"
     return r
 
@@ -502,11 +549,13 @@ def make_replay(cfg, job, ob, prop, tier):
     os.makedirs(rdir, exist_ok=True)
     hid = hashlib.md5((job["id"] + (ob["name"] or "") + (ob["desc"] or "")).encode()).hexdigest()[:8]
     rfile = os.path.join(rdir, "%s-%s-%s.json" % (cfg["name"], job["entry"], hid))
-    if job.get("mode") == "native":
+    if job.get("mode") in ("native", "inventory"):
+        inv = job.get("mode") == "inventory"
         doc = {"property": prop, "target": cfg["name"], "job": job["id"], "entry": job["entry"], "obligation": ob["name"], "description": ob["desc"], "location": ob["loc"],
-               "inputs": {}, "failing_inputs_on_real_code": ob.get("native_fail", []), "checker_cmd": "native exhaustive evaluation on the real code", "confirmed": True, "native_replay": "reproduced"}
+               "inputs": {}, "failing_inputs_on_real_code": ob.get("native_fail", []), "checker_cmd": "static inventory of the current tree (no schedule is constructed)" if inv else "native exhaustive evaluation on the real code",
+               "confirmed": not inv, "native_replay": "not applicable: the obligation is a frame fact, the racing schedule is not constructed" if inv else "reproduced"}
         json.dump(doc, open(rfile, "w"), indent=1)
-        return rfile, True
+        return rfile, not inv
     inputs = {}; cbmc_out = ""; tr = {}
     # counterexample extraction: first under the target's "small counterexample" define (materialisable inputs), then unconstrained
     attempts = []
@@ -589,7 +638,8 @@ def main(argv):
     jobs = select_jobs(targets, prop, tier, only)
     if not jobs:
         log("no jobs registered for property " + prop); return 2
-    return run_and_report(prop, tier, targets, jobs, t0)
+    lvl = "other" if jobs and all(j.get("mode") == "inventory" for j in jobs) else "proof"
+    return run_and_report(prop, tier, targets, jobs, t0, level=lvl)
 
 def run_and_report(prop, tier, targets, jobs, t0, extra_cov=None, extra_assumptions=None, level="proof"):
     kf = load_known_findings()
@@ -683,7 +733,7 @@ def run_and_report(prop, tier, targets, jobs, t0, extra_cov=None, extra_assumpti
                             "failures": [o["name"] for o in r["obligations"] if o["status"] == "FAILURE"], "backend": r["backend"]})
         if not has_canary and job.get("canary", "on") != "off":
             canaries["vacuous"].append(job["id"] + " (no canary present)")
-        per_job.append({"job": job["id"], "mode": "R1 goto-instrument --dfcc + cbmc" if job.get("mode") == "dfcc" else "R2 direct harness + cbmc", "obligations": jn, "discharged": jd,
+        per_job.append({"job": job["id"], "mode": {"dfcc": "R1 goto-instrument --dfcc + cbmc", "native": "bounded native stand-in", "inventory": "static inventory (clang AST)"}.get(job.get("mode"), "R2 direct harness + cbmc"), "obligations": jn, "discharged": jd,
                         "solver_s": r["solver_s"], "backend": r["backend"], "unwind": job.get("unwind"), "kf": job.get("kf")})
     for v in canaries["vacuous"]:
         undecided.append({"job": v, "why": "vacuity guard: canary assertion did not fail (precondition unsatisfiable or end unreachable)"})
